@@ -544,7 +544,11 @@ def rule_dispatch(chk):
         chk.decide(first_bad is None, 'dispatch', 'group-map', node=gm, file=AH, func='_compute_group_map',
                    detail_bad='%s emits %s' % (first_bad or ('', '')), detail_ok='every group and sub-group addressed by its own position')
     except (AI.Unsupported, AI.Raised) as e:
-        chk.undecided('dispatch', 'group-map', node=gm, file=AH, func='_compute_group_map', detail='generator not interpretable: %s' % e)
+        if getattr(e, 'raised', None) is not None or isinstance(e, AI.Raised):
+            # the generator itself raises for a legitimate set of groups (g0 is a group without equations)
+            chk.violated('dispatch', 'group-map', node=gm, file=AH, func='_compute_group_map', detail='for groups [g0 (no equations), g1 with sub-groups sg0, sg1] the generator fails: %s' % e)
+        else:
+            chk.undecided('dispatch', 'group-map', node=gm, file=AH, func='_compute_group_map', detail='generator not interpretable: %s' % e)
 
 
 def rule_helpers(chk):
